@@ -63,16 +63,30 @@ PROPS = {
     "C08": {
         "pkg": "c08",
         "level": "exploration",
-        "rule": ("sigma protocols (Schnorr, batch Schnorr, Okamoto, elcomop, elog, AND / OR compositions of depth <= 2, Paillier and "
-                 "CGGMP21 proofs on fixture primes) x compiler (Fiat-Shamir, Fischlin, randomised Fischlin, interactive zk compiler, plain "
-                 "interactive sigma) x group x drawn statement/witness x drawn session context: completeness in a clone of the context; the "
-                 "same proof bytes rejected under another session id, another transcript state, another prover-id label, another valid "
-                 "statement, a statement with one component altered, another compiler or sigma-protocol name; one structure-aware CBOR "
-                 "mutation of the proof bytes must be rejected iff the typed decoding changes (same canonical re-encoding => still accepted), "
-                 "never a panic; extractor on two honest transcripts with one commitment returns a valid witness; simulated transcripts "
-                 "verify; OR proves with exactly one witness (each branch) and refuses with none. Non-trivial: every negative case and every "
-                 "completeness case with a drawn context; distinct = (protocol, compiler, composition shape, group, negative-case kind)."),
-        "assumptions": COMMON_ASSUME,
+        "rule": ("sigma protocols Schnorr, batch Schnorr (k 2-4), Okamoto (1-3 generators), elcomop, elog and AND / OR compositions of "
+                 "depth <= 2 (sigand.Compose / CartesianCompose, sigor.Compose / CartesianCompose; true branch drawn) over k256, p256, "
+                 "edwards25519 prime subgroup, pallas, vesta, BLS12-381 G1 / G2 with a drawn witness class (0, 1, q-1, small, uniform) and "
+                 "generator (standard / random); Paillier nthroot / range, prm, cggmp21 enc / fac / blummod on 1024-bit and affg / affgstar / "
+                 "dec on 2048-bit moduli built from openssl prime fixtures through the library's constructors; pailliern, lp, lpdl through "
+                 "their own APIs. Compilers: Fiat-Shamir, Fischlin, randomised Fischlin (NI), zk compiler and plain sigma prover/verifier "
+                 "(interactive). Session contexts from a drawn seed via session.NewContext, 0-2 drawn transcript appends, prover identity "
+                 "bound by AppendBytes(label, id) as the callers do. Per case: completeness in a clone of the context, then ONE negative: "
+                 "another session seed / extra, missing, altered append / verifier reused after a successful verification / other, missing, "
+                 "extra prover id / another valid statement / one statement component altered, permuted, dropped, duplicated / another "
+                 "compiler / the same protocol under another sigma.Name - the SAME proof bytes must be rejected; or ONE structure-aware CBOR "
+                 "mutation (bit flip, leaf of a second valid proof, swap, array +-1, integer +-1, byte string +-1 byte, null, map key flip / "
+                 "drop, non-minimal head, scalar + group order): rejected iff the library's typed decoding changes or fails, still accepted "
+                 "when the canonical re-encoding is unchanged, never a panic (value + k*modulus kept by the decoder and a zero byte prepended "
+                 "to a natural number: both verdicts allowed). Every site class x 12 deterministic operator variants is enumerated on one "
+                 "proof per kind x compiler. Sigma level: two honest transcripts on one commitment verify and Extract returns a witness "
+                 "accepted by ValidateStatement (maurer09-based protocols); RunSimulator output verifies; an OR transcript of simulated "
+                 "branches only is rejected under another challenge; wrong witness: error or a proof that does not verify (n-ary OR must "
+                 "refuse); every OR shape x true branch x compiler enumerated. Non-trivial: every negative / tamper case whose mutation is "
+                 "not the identity; distinct = (protocol, compiler, composition shape, group, negative-case kind | operator, verdict)."),
+        "assumptions": COMMON_ASSUME + [
+            "prime fixtures were generated with openssl and re-checked with math/big; key material is built by the library's constructors, not its generators",
+            "2^-128 coincidences of transcript / hash outputs are treated as impossible; a Fischlin-compiled mutant that meets the 8-bit hash target again is still caught by the sigma relation",
+        ],
         "quick": {"scale": 1, "shards": 16, "timeout_s": 3600},
         "thorough": {"scale": 10, "shards": 16, "timeout_s": 14400},
     },
